@@ -898,6 +898,10 @@ class Interp:
         if isinstance(b, ModelObj) and hasattr(b, "m_rbinop"):
             return b.m_rbinop(self, op, a)
         if isinstance(a, Sym) or isinstance(b, Sym):
+            if isinstance(a, list) and len(a) == 1 and isinstance(op, ast.Mult) and isinstance(b, Sym) and b.sort() == Int:
+                # [x] * n for a symbolic n: the list of n copies of x (empty for n <= 0)
+                x, n = a[0], b.e
+                return SymList(z3.If(n >= 0, n, 0), lambda i: x, elem_sort=(x.sort() if isinstance(x, Sym) else None))
             if isinstance(a, (list, tuple)) or isinstance(b, (list, tuple)):
                 raise Unsupported("sequence arithmetic with symbolic operand")
             ea, eb = to_z3(a, Int), to_z3(b, Int)
